@@ -12,7 +12,7 @@ From Coq Require Import List Bool Arith NArith Lia Relations Permutation.
 Import ListNotations.
 From BB Require Import BN Brute SpaceFacts TrapFacts PercolateFacts AttractorFacts Diagram Invariants Checks Filter
   Strict PetriNet Control Meta FilterFacts PetriNetFacts TrappistFacts DiagramStruct DiagramSem1 DiagramCache
-  DiagramDepth DiagramComplete Termination ControlFacts MetaFacts Candidates StrictFacts MinExpandFacts CandidatesFacts SymbolicTest SymbolicTestFacts.
+  DiagramDepth DiagramComplete Termination ControlFacts MetaFacts Candidates StrictFacts MinExpandFacts CandidatesFacts SymbolicTest SymbolicTestFacts Signed ReductionFacts ControlFacts2 Main.
 
 (* given covering candidates, the filter returns exactly one seed per attractor of the node, and the sets are the attractors *)
 Theorem C01_filter_exact : forall (N : net) (S : space) (motifs : list space) (cands seeds : list state) (sets : list (list state)), trap_space N S -> (forall M : space, In M motifs -> trap_space N M /\ subspace M S = true) -> NoDup cands -> (forall c : state, In c cands -> in_space c S = true) -> covers N S motifs cands -> compute_attractors_filter N false motifs cands = (seeds, Some sets) -> one_to_one N S motifs seeds /\ length sets = length seeds /\ (forall (i : nat) (s : state) (X : list state), nth_error seeds i = Some s -> nth_error sets i = Some X -> forall t : state, In t X <-> reach N s t).
@@ -51,6 +51,13 @@ Proof. exact reaches_attractor. Qed.
 Theorem C01_attractor_in_percolation : forall (N : net) (A : state -> Prop) (S : space), attractor N A -> trap_space N S -> (forall s : state, A s -> in_space s S = true) -> forall s : state, A s -> in_space s (percolate_b N S) = true.
 Proof. exact attractor_in_percolation. Qed.
 
+(* candidate pipeline + filter = one seed per attractor of the node, given an NFVS *)
+Theorem C01_pipeline_then_filter_exact : forall (fuel : nat) (N : net) (S : space) (avoid : list space) (nfvs : list nat) (Rinit : retained) (cfg : ccfg) (greedy simulation : bool) (tape : list (list state)) (stp : simtape) (res : list state) (log : list call) (seeds : list state) (sets : list (list state)), trap_space N S -> (forall a : space, In a avoid -> trap_space N a /\ subspace a S = true) -> NoDup nfvs -> (forall v : nat, In v nfvs -> v < nvars N) -> retained_total nfvs Rinit -> no_neg_walk N S nfvs -> (is_full S = false -> nfvs = [] -> avoid <> [] -> fixed_points_avoided N S avoid) -> compute_candidates fuel N S avoid nfvs Rinit cfg greedy simulation tape stp = (COk res, log) -> tape_ok N S avoid log tape -> walks_ok fuel N S avoid nfvs Rinit cfg greedy tape stp -> NoDup res -> compute_attractors_filter N false avoid res = (seeds, Some sets) -> one_to_one N S avoid seeds.
+Proof. exact pipeline_then_filter_exact. Qed.
+
+Theorem C01_nfvs_reduction : forall (N : net) (S : space) (avoid : list space) (nfvs : list nat), trap_space N S -> (forall a : space, In a avoid -> trap_space N a) -> NoDup nfvs -> (forall v : nat, In v nfvs -> v < nvars N) -> no_neg_walk N S nfvs -> reduction_hyp N S avoid nfvs.
+Proof. exact nfvs_reduction. Qed.
+
 (* non-vacuity: two bistable switches; x0'=x1, x1'=x0, x2'=x3, x3'=x2 *)
 Definition ex_sw : net := [fun s => nth 1 s false; fun s => nth 0 s false; fun s => nth 3 s false; fun s => nth 2 s false].
 Definition ex_cfg : config := {| max_motifs := 1000 |}.
@@ -70,3 +77,5 @@ Print Assumptions C01_node_attractors_sound.
 Print Assumptions C01_node_attractors_complete.
 Print Assumptions C01_reaches_attractor.
 Print Assumptions C01_attractor_in_percolation.
+Print Assumptions C01_pipeline_then_filter_exact.
+Print Assumptions C01_nfvs_reduction.
